@@ -1,0 +1,102 @@
+//go:build verif
+
+// Contracts for the quorum read trackers (C11, C02), checked by /verif/govc (comment-only file).
+
+package ring
+
+//@ # ---- default (instance counting) tracker ----------------------------------------------------------------
+//@ func newDefaultResultTracker
+//@   property C11 C02
+//@   ensures result != nil && result.minSucceeded == len(instances) - maxErrors && result.maxErrors == maxErrors &&
+//@           result.numSucceeded == 0 && result.numErrors == 0 && result.instances == instances
+//@
+//@ func defaultResultTracker.succeeded
+//@   property C11 C02
+//@   ensures result <==> t.numSucceeded >= t.minSucceeded
+//@   pure
+//@
+//@ func defaultResultTracker.failed
+//@   property C11 C02
+//@   ensures result <==> t.numErrors > t.maxErrors
+//@   pure
+//@
+//@ func defaultResultTracker.shouldIncludeResultFrom
+//@   property C11
+//@   ensures result
+//@   pure
+//@
+//@ # done: one more success or one more error is counted, nothing else about the counters changes
+//@ func defaultResultTracker.done
+//@   property C11
+//@   ensures  ok: err == nil ==> t.numSucceeded == old(t).numSucceeded + 1 && t.numErrors == old(t).numErrors
+//@   ensures  ko: err != nil ==> t.numErrors == old(t).numErrors + 1 && t.numSucceeded == old(t).numSucceeded
+//@   ensures  fixed: t.minSucceeded == old(t).minSucceeded && t.maxErrors == old(t).maxErrors
+//@
+//@ func defaultResultTracker.onSucceeded
+//@   property C11
+//@   ensures t.numSucceeded == old(t).numSucceeded && t.numErrors == old(t).numErrors && t.minSucceeded == old(t).minSucceeded && t.maxErrors == old(t).maxErrors && len(t.pendingInstances) == 0
+//@
+//@ # a failure or a hedging tick releases at most one more pending request
+//@ func defaultResultTracker.startAdditionalRequestsDueTo
+//@   property C11
+//@   ensures t.numSucceeded == old(t).numSucceeded && t.numErrors == old(t).numErrors && t.minSucceeded == old(t).minSucceeded && t.maxErrors == old(t).maxErrors
+//@   ensures len(old(t).pendingInstances) > 0 ==> len(t.pendingInstances) == len(old(t).pendingInstances) - 1
+//@   ensures len(old(t).pendingInstances) == 0 ==> len(t.pendingInstances) == 0
+//@
+//@ # ---- zone-aware tracker -------------------------------------------------------------------------------------
+//@ func zoneAwareResultTracker.failed
+//@   property C11 C02
+//@   ensures result <==> len(t.failuresByZone) > t.maxUnavailableZones
+//@   pure
+//@
+//@ # results are taken only from zones all of whose instances answered and none of which failed
+//@ func zoneAwareResultTracker.shouldIncludeResultFrom
+//@   property C11 C02
+//@   ensures result <==> (get(t.failuresByZone, instance.Zone) == 0 && get(t.waitingByZone, instance.Zone) == 0)
+//@   pure
+//@
+//@ # succeeded: at least minSuccessfulZones zones are complete (nobody waiting) and failure-free.
+//@ # The count is tied to the predicate through a ghost set of counted zones (cardinality itself is not axiomatised):
+//@ # zero is exact, every counted zone is complete, every complete zone is counted.
+//@ func zoneAwareResultTracker.succeeded
+//@   property C11 C02
+//@   ghost var counted set[string] = emptyset("")
+//@   ghost var n int = 0
+//@   loop 0 invariant successfulZones >= 0 && successfulZones <= $i && n == successfulZones
+//@   loop 0 invariant forall z string :: counted[z] <==> ($visited[z] && t.waitingByZone[z] == 0 && get(t.failuresByZone, z) == 0)
+//@   loop 0 invariant successfulZones == 0 <==> (forall z string :: !counted[z])
+//@   loop 0 end counted := successfulZones > n ? setadd(counted, $k) : counted
+//@   loop 0 end n := successfulZones
+//@   ensures  none_complete: (forall z string :: in(z, t.waitingByZone) ==> !(t.waitingByZone[z] == 0 && get(t.failuresByZone, z) == 0)) && t.minSuccessfulZones > 0 ==> !result
+//@   ensures  trivially: t.minSuccessfulZones <= 0 ==> result
+//@   pure
+//@
+//@ func zoneAwareResultTracker.done
+//@   property C11
+//@   requires !isnil(t.waitingByZone) && !isnil(t.failuresByZone)
+//@   ensures  waiting: get(t.waitingByZone, instance.Zone) == get(old(t).waitingByZone, instance.Zone) - 1
+//@   ensures  failure: err != nil ==> get(t.failuresByZone, instance.Zone) == get(old(t).failuresByZone, instance.Zone) + 1
+//@   ensures  nofailure: err == nil ==> same(t.failuresByZone, old(t).failuresByZone)
+//@   ensures  others: forall z string :: z != instance.Zone ==> get(t.waitingByZone, z) == get(old(t).waitingByZone, z) && get(t.failuresByZone, z) == get(old(t).failuresByZone, z)
+//@
+//@ # ---- in-flight tracker -----------------------------------------------------------------------------------
+//@ func inflightInstanceTracker.allInstancesCompleted
+//@   property C11
+//@   ensures result <==> (!t.expectMoreInstances && (forall i int :: 0 <= i && i < len(t.inflight) ==> len(t.inflight[i]) == 0))
+//@   loop 0 invariant forall i int :: 0 <= i && i < $i ==> len(t.inflight[i]) == 0
+//@   modifies nothing
+//@
+//@ # release bookkeeping never touches the per-zone counters
+//@ func zoneAwareResultTracker.releaseZone
+//@   property C11
+//@   ensures same(t.waitingByZone, old(t).waitingByZone) && same(t.failuresByZone, old(t).failuresByZone) && t.minSuccessfulZones == old(t).minSuccessfulZones && t.maxUnavailableZones == old(t).maxUnavailableZones && t.pendingZones == old(t).pendingZones
+//@ func zoneAwareResultTracker.onSucceeded
+//@   property C11
+//@   ensures same(t.waitingByZone, old(t).waitingByZone) && same(t.failuresByZone, old(t).failuresByZone) && t.minSuccessfulZones == old(t).minSuccessfulZones && t.maxUnavailableZones == old(t).maxUnavailableZones && len(t.pendingZones) == 0
+//@   loop 0 invariant same(t.waitingByZone, old(t).waitingByZone) && same(t.failuresByZone, old(t).failuresByZone) && t.minSuccessfulZones == old(t).minSuccessfulZones && t.maxUnavailableZones == old(t).maxUnavailableZones
+//@ # a failing zone or a hedging tick releases at most one more zone
+//@ func zoneAwareResultTracker.startAdditionalRequestsDueTo
+//@   property C11
+//@   ensures same(t.waitingByZone, old(t).waitingByZone) && same(t.failuresByZone, old(t).failuresByZone) && t.minSuccessfulZones == old(t).minSuccessfulZones && t.maxUnavailableZones == old(t).maxUnavailableZones
+//@   ensures len(old(t).pendingZones) > 0 ==> len(t.pendingZones) == len(old(t).pendingZones) - 1
+//@   ensures len(old(t).pendingZones) == 0 ==> len(t.pendingZones) == 0
